@@ -82,31 +82,44 @@ Proof.
   destruct (str_eqb k x) eqn:E; [apply str_eqb_eq in E; congruence|reflexivity].
 Qed.
 
+(* ------------------------------------------------------------------ both behaviours, both families
+   [bn]: where the header separator is looked for (Infer.is_nested); [lok]: what is asked of a
+   plain column.  Either the separator is looked for in the field name only, or a written
+   default has no header separator. *)
+Section Behaviour.
+Variable bn : bool.
+Variable lok : leaf -> bool.
+Hypothesis lok_full : forall l, lok l = true -> leaf_ok_full l = true.
+Hypothesis lok_nested : forall l, lok l = true -> bn = true \/ leaf_ok l = true.
+Notation step := (step_at bn).
+Notation infer_rec := (infer_rec_at bn).
+Notation infer := (infer_at bn).
+Notation wf_sty := (wf_sty_gen lok).
+Notation wf_schema := (wf_schema_gen lok).
+
 (* ------------------------------------------------------------------ the first loop *)
-Lemma name_ok_no_hs n : name_ok n = true -> no_char HS n = true.
-Proof.
-  unfold name_ok. intros H. apply andb_prop in H. destruct H as [H _].
-  apply no_seps_proj in H. tauto.
-Qed.
+Lemma name_ok_no_hs n : name_ok n = true -> no_seps n = true.
+Proof. unfold name_ok. intros H. apply andb_prop in H. tauto. Qed.
 
 Lemma step_leaf F C p n l :
-  pads_ok p = true -> leaf_ok l = true -> name_ok n = true ->
+  pads_ok p = true -> lok l = true -> name_ok n = true ->
   step (F, C) (render_leaf p n l) = Ok (sset F n (denote_leaf l), C).
 Proof.
-  intros Hp Hl Hn. destruct (leaf_header p n l Hp Hl Hn) as (H1 & H2 & H3).
-  unfold step. rewrite H1, H3, H2. reflexivity.
+  intros Hp Hl Hn.
+  destruct (leaf_header p n l bn Hp (lok_full l Hl) Hn (lok_nested l Hl)) as (H1 & H2 & H3).
+  unfold step_at. rewrite H1, H3, H2. reflexivity.
 Qed.
 
 Lemma step_dotted F C n sub :
-  no_char HS n = true ->
+  no_seps n = true ->
   step (F, C) (prefix_field n sub)
   = Ok (F, sset C n ((match sget C n with Some l => l | None => [] end) ++ [sub])).
 Proof.
-  intros Hn. unfold step, prefix_field. rewrite split_first_app by exact Hn. reflexivity.
+  intros Hn. unfold step_at. rewrite hsplit_prefixed by exact Hn. reflexivity.
 Qed.
 
 Lemma fold_dotted_more F C n l hs :
-  no_char HS n = true -> sget C n = None ->
+  no_seps n = true -> sget C n = None ->
   foldM step (map (prefix_field n) hs) (F, C ++ [(n, l)]) = Ok (F, C ++ [(n, l ++ hs)]).
 Proof.
   intros Hn HC. revert l. induction hs as [|h hs IH]; intros l; cbn [map foldM].
@@ -117,7 +130,7 @@ Proof.
 Qed.
 
 Lemma fold_dotted F C n hs :
-  no_char HS n = true -> sget C n = None -> hs <> [] ->
+  no_seps n = true -> sget C n = None -> hs <> [] ->
   foldM step (map (prefix_field n) hs) (F, C) = Ok (F, C ++ [(n, hs)]).
 Proof.
   intros Hn HC Hne. destruct hs as [|h hs]; [congruence|]. cbn [map foldM].
@@ -154,13 +167,13 @@ Lemma headers_of_field_nonempty s : wf_sty s = true -> forall n, headers_of_fiel
 Proof.
   induction s as [p l|es IH|fs IH] using sty_ind'; intros Hwf n.
   - discriminate.
-  - rewrite headers_of_field_dotted by reflexivity. cbn [wf_sty] in Hwf.
+  - rewrite headers_of_field_dotted by reflexivity. cbn [wf_sty_gen] in Hwf.
     apply andb_prop in Hwf. destruct Hwf as [Hwf Hall]. apply andb_prop in Hwf. destruct Hwf as [Hne _].
     destruct es as [|e r]; [discriminate|]. unfold subs. cbn [children numbered].
     rewrite headers_of_fields_cons. cbn [forallb] in Hall. apply andb_prop in Hall. destruct Hall as [He _].
     inversion IH as [|? ? IHe _]; subst. specialize (IHe He (str_of_N 1)).
     destruct (headers_of_field (str_of_N 1) e); [congruence|discriminate].
-  - rewrite headers_of_field_dotted by reflexivity. cbn [wf_sty] in Hwf.
+  - rewrite headers_of_field_dotted by reflexivity. cbn [wf_sty_gen] in Hwf.
     apply andb_prop in Hwf. destruct Hwf as [Hwf Hall]. apply andb_prop in Hwf. destruct Hwf as [Hwf _].
     apply andb_prop in Hwf. destruct Hwf as [Hne _].
     destruct fs as [|[n0 s0] r]; [discriminate|]. unfold subs. cbn [children].
@@ -199,7 +212,7 @@ Proof.
     rewrite headers_of_fields_cons, foldM_app.
     destruct s as [p l|es|fs].
     + (* a plain column *)
-      cbn [wf_sty] in Hwf. apply andb_prop in Hwf. destruct Hwf as [Hp Hl].
+      cbn [wf_sty_gen] in Hwf. apply andb_prop in Hwf. destruct Hwf as [Hp Hl].
       cbn [headers_of_field foldM]. rewrite step_leaf by assumption.
       rewrite sset_new by exact HF. rewrite IH; [|exact Hok'|exact Hnd'|].
       * unfold leaf_part, cplx_part. cbn [flat_map snd fst is_leafb app].
@@ -297,7 +310,7 @@ Lemma infer_rec_level f cs :
   infer_rec (S f) (headers_of_fields cs)
   = finish (leaf_first (map (fun nt : str * sty => (fst nt, is_leafb (snd nt), denote_sty (snd nt))) cs)).
 Proof.
-  intros Hok Hnd Hrec. cbn [infer_rec].
+  intros Hok Hnd Hrec. cbn [infer_rec_at].
   assert (H0 : foldM step (headers_of_fields cs) ([], []) = Ok (leaf_part cs, cplx_part cs)).
   { apply (fold_step_fields cs Hok Hnd [] []). intros; split; reflexivity. }
   rewrite H0. clear H0. change (foldM _ (cplx_part cs) (leaf_part cs)) with (foldM (child_step f) (cplx_part cs) (leaf_part cs)).
@@ -588,7 +601,7 @@ Lemma infer_rec_subs s :
 Proof.
   induction s as [p l|es IH|fs IH] using sty_ind'; intros Hwf Hl fuel Hfuel; [discriminate| |].
   - (* f.1 f.2 ... *)
-    destruct fuel as [|f]; [lia|]. cbn [wf_sty] in Hwf.
+    destruct fuel as [|f]; [lia|]. cbn [wf_sty_gen] in Hwf.
     apply andb_prop in Hwf. destruct Hwf as [Hwf Hall]. apply andb_prop in Hwf. destruct Hwf as [Hne Hhom].
     unfold subs in *. cbn [children] in *.
     rewrite infer_rec_level; [|apply numbered_child_ok, Hall|apply numbered_nodup|].
@@ -605,7 +618,7 @@ Proof.
         apply subs_nonempty; [apply (Hall _ Hine)|exact Hlnt]. }
       unfold subs in Hlt. lia.
   - (* f.a f.b ... *)
-    destruct fuel as [|f]; [lia|]. cbn [wf_sty] in Hwf.
+    destruct fuel as [|f]; [lia|]. cbn [wf_sty_gen] in Hwf.
     apply andb_prop in Hwf. destruct Hwf as [Hwf Hall]. apply andb_prop in Hwf. destruct Hwf as [Hwf Hnd].
     apply andb_prop in Hwf. destruct Hwf as [Hne Hnames].
     unfold subs in *. cbn [children] in *.
@@ -618,14 +631,38 @@ Proof.
     unfold subs in Hlt. lia.
 Qed.
 
-(* ------------------------------------------------------------------ the headline theorem *)
-Theorem infer_headers_of sc : wf_schema sc = true -> infer (headers_of sc) = Ok (denote sc).
+(* the headline, for either behaviour and either family *)
+Lemma infer_headers_of_gen sc : wf_schema sc = true -> infer (headers_of sc) = Ok (denote sc).
 Proof.
-  intros Hwf. unfold wf_schema in Hwf.
+  intros Hwf. unfold wf_schema_gen in Hwf.
   apply andb_prop in Hwf. destruct Hwf as [Hwf Hall]. apply andb_prop in Hwf. destruct Hwf as [Hnames Hnd].
-  unfold infer, headers_of, denote. apply infer_rec_fields; try assumption.
+  unfold infer_at, headers_of, denote. apply infer_rec_fields; try assumption.
   intros [n s] Hin Hl. cbn [snd] in *. rewrite forallb_forall in Hall.
   pose proof (Hall _ Hin) as Hws. cbn [snd] in Hws.
   apply infer_rec_subs; [exact Hws|exact Hl|].
   apply (max_len_child sc n s Hin Hl). apply subs_nonempty; assumption.
+Qed.
+
+End Behaviour.
+
+(* ------------------------------------------------------------------ the headline theorem *)
+(* the family whose defaults have no header separator: whatever the tree does *)
+Theorem infer_at_headers_of b sc : wf_schema sc = true -> infer_at b (headers_of sc) = Ok (denote sc).
+Proof.
+  apply (infer_headers_of_gen b leaf_ok).
+  - apply leaf_ok_full_of.
+  - intros l H. right. exact H.
+Qed.
+
+Theorem infer_headers_of sc : wf_schema sc = true -> infer (headers_of sc) = Ok (denote sc).
+Proof. apply infer_at_headers_of. Qed.
+
+(* the full family (a default may contain the header separator): the behaviour that looks for
+   the separator in the field name only *)
+Theorem infer_by_name_headers_of_full sc :
+  wf_schema_full sc = true -> infer_at true (headers_of sc) = Ok (denote sc).
+Proof.
+  apply (infer_headers_of_gen true leaf_ok_full).
+  - intros l H. exact H.
+  - intros l H. left. reflexivity.
 Qed.
